@@ -1,7 +1,8 @@
 """C03 translator: the decision trees of nixio's container lookups -> lean/NixModel/Generated/ContShape.lean.
 
 `Container.__contains__`, `LinkContainer.__contains__`, `Container.__getitem__`, `LinkContainer.__getitem__`
-(nixio/container.py) and `H5Group.get_by_id_or_name` (nixio/hdf5/h5group.py) are read with `ast` and executed
+(nixio/container.py) and `H5Group.get_by_id_or_name`, `get_by_name`, `get_by_id`, `__contains__`
+(nixio/hdf5/h5group.py) are read with `ast` and executed
 symbolically, statement by statement (if / elif / else, `and`, `not`, return, raise, local bindings,
 `try: <call> ... except KeyError: pass`, `for x in <backend>: if <test>: return <value>`), into decision trees
 
@@ -10,8 +11,8 @@ symbolically, statement by statement (if / elif / else, `and`, `not`, return, ra
 whose atoms are the tests and returned expressions of the code, in the code's own order. Every atom must be one of
 the expressions listed in TESTS / RETS below (after renaming the key parameter to `item` and substituting local
 bindings); the Lean vocabulary `NixModel/Store/ContShape.lean` gives each its meaning over the HDF5 graph, and the
-theorems `Nix.C03.contains_shape_* / getitem_shape_* / h5_lookup_shape` prove that the generated trees compute the
-model's `contHas` / `contGet` / `getByIdOrName` for all graphs, containers and keys. So a change of the ORDER of the
+theorems `Nix.C03.contains_shape_* / getitem_shape_* / h5_*_shape` prove that the generated trees compute the
+model's `contHas` / `contGet` / `getByIdOrName` / `getByName` / `getById` for all graphs, containers and keys. So a change of the ORDER of the
 tests, of a branch or of an outcome changes the generated tree and breaks a named theorem; an expression the
 vocabulary does not know (e.g. membership decided from the path of the HDF5 object instead of object identity) is an
 ExtractError (broken tie). Nothing is imported from nixio.
@@ -33,6 +34,11 @@ TESTS = {
     "ok:self._backend.get_by_id(item)": "getByIdOk",          # the call in a `try` does not raise KeyError
     "ok:self.get_by_id(item)": "getByIdOk",
     "scan:self._backend:item == grp.get_attr('name')": "scanNameFinds",
+    # nixio/hdf5/h5group.py
+    "self.group": "groupThere",                               # truth value of the h5py group (None: no such group)
+    "self.group is None": "groupIsNone",
+    "item in self.group": "nameInGroup",
+    "scan:self:grp.get_attr('entity_id') == item": "scanIdFinds",
 }
 MINE = "(item._h5group.group if hasattr(item._h5group, 'group') else item._h5group.dataset)"
 # returned expressions -> constructor of Nix.Store.RAtom
@@ -48,6 +54,9 @@ RETS = {
     "super(LinkContainer, self).__getitem__(item)": "byPos",
     "self.get_by_id(item)": "getById",
     "self.get_by_name(item)": "getByName",
+    "self.create_from_h5obj(self.group[item])": "fromGroup",
+    "scanres:self:grp.get_attr('entity_id') == item:grp": "scanIdItem",
+    "item in self.group": "inGroup",
 }
 ERRS = {"TypeError": "typeError", "KeyError": "keyError", "IndexError": "indexError", "ValueError": "valueError",
         "RuntimeError": "runtimeError"}
@@ -61,7 +70,10 @@ TARGETS = [("nixio/container.py", "Container", "__contains__", "containerContain
            ("nixio/container.py", "LinkContainer", "__contains__", "linkContains"),
            ("nixio/container.py", "Container", "__getitem__", "containerGetitem"),
            ("nixio/container.py", "LinkContainer", "__getitem__", "linkGetitem"),
-           ("nixio/hdf5/h5group.py", "H5Group", "get_by_id_or_name", "h5GetByIdOrName")]
+           ("nixio/hdf5/h5group.py", "H5Group", "get_by_id_or_name", "h5GetByIdOrName"),
+           ("nixio/hdf5/h5group.py", "H5Group", "get_by_name", "h5GetByName"),
+           ("nixio/hdf5/h5group.py", "H5Group", "get_by_id", "h5GetById"),
+           ("nixio/hdf5/h5group.py", "H5Group", "__contains__", "h5Contains")]
 
 
 class _Subst(ast.NodeTransformer):
@@ -166,13 +178,18 @@ class _Sym:
             if s.orelse or not isinstance(s.target, ast.Name) or len(s.body) != 1 or not isinstance(s.body[0], ast.If) \
                     or s.body[0].orelse or len(s.body[0].body) != 1 or not isinstance(s.body[0].body[0], ast.Return):
                 self.bad("for loop of another form")
+            # the loop variable is called `grp` in the vocabulary, whatever the code calls it (it may even reuse the
+            # name the key parameter is normalised to)
             env2 = {k2: v for k2, v in env.items() if k2 != s.target.id}
-            it = _text(s.iter, env2)
-            tst = _text(s.body[0].test, env2).replace(s.target.id + ".", "grp.") if s.target.id != "grp" else \
-                _text(s.body[0].test, env2)
-            val = _text(s.body[0].body[0].value, env2)
-            if s.target.id != "grp":
-                val = val.replace("(%s)" % s.target.id, "(grp)")
+            loopvar = {s.target.id: ast.Name(id="grp", ctx=ast.Load())}
+
+            def txt(e):
+                e = _Subst(loopvar).visit(copy.deepcopy(e))
+                return _text(e, env2)
+
+            it = _text(s.iter, env)
+            tst = txt(s.body[0].test)
+            val = txt(s.body[0].body[0].value)
             key = "scan:%s:%s" % (it, tst)
             if val == "True":
                 return self.test(key, self.ret("True"), cont(env))
